@@ -39,6 +39,34 @@ def _with_items_named(node, gname):
     return [it for it in node.items if isinstance(it.context_expr, ast.Name) and it.context_expr.id == gname]
 
 
+def parse_guard(test):
+    """the condition under which the start wrapper hands over to a new process lock:
+    [not] isinstance(<_tty_lock | self._tty_lock | getattr(self, '_tty_lock', None)>, <_rlock_type | type(_tty_lock)>)
+    -> (negated, subject, type)"""
+    neg = False
+    while isinstance(test, ast.UnaryOp) and isinstance(test.op, ast.Not):
+        test, neg = test.operand, not neg
+    if not (isinstance(test, ast.Call) and getattr(test.func, "id", "") == "isinstance" and len(test.args) == 2):
+        raise SkeletonError("hand-over condition is not an isinstance test")
+    x, t = test.args
+    if isinstance(x, ast.Name) and x.id == "_tty_lock":
+        subject = "global"
+    elif isinstance(x, ast.Attribute) and x.attr == "_tty_lock" and getattr(x.value, "id", "") == "self":
+        subject = "attr"
+    elif (isinstance(x, ast.Call) and getattr(x.func, "id", "") == "getattr" and len(x.args) >= 2 and getattr(x.args[0], "id", "") == "self"
+          and isinstance(x.args[1], ast.Constant) and x.args[1].value == "_tty_lock"):
+        subject = "attr"
+    else:
+        raise SkeletonError("hand-over condition tests an unrecognised object")
+    if isinstance(t, ast.Name) and t.id == "_rlock_type":
+        typ = "thread_type"
+    elif isinstance(t, ast.Call) and getattr(t.func, "id", "") == "type" and len(t.args) == 1 and getattr(t.args[0], "id", "") == "_tty_lock":
+        typ = "type_of_global"
+    else:
+        raise SkeletonError("hand-over condition tests against an unrecognised type")
+    return (neg, subject, typ)
+
+
 def extract(src):
     """-> dict describing the lock protocol of the current source"""
     tree = ast.parse(src)
@@ -63,10 +91,13 @@ def extract(src):
     out["start_holds_lock"] = bool(swith)
     swap_global = store_attr_new = store_attr_old = False
     search_root = swith[0] if swith else s
+    guard = None
     for n in ast.walk(search_root):
         if isinstance(n, ast.If):
-            t = n.test
-            if isinstance(t, ast.Call) and getattr(t.func, "id", "") == "isinstance" and getattr(t.args[0], "id", "") == "_tty_lock":
+            makes_lock = any(isinstance(a, ast.Assign) and isinstance(a.value, ast.Call) and getattr(a.value.func, "id", "") == "mp_RLock"
+                             for a in ast.walk(ast.Module(body=n.body, type_ignores=[])))
+            if makes_lock:
+                guard = parse_guard(n.test)
                 for a in ast.walk(ast.Module(body=n.body, type_ignores=[])):
                     if isinstance(a, ast.Assign) and isinstance(a.value, ast.Call) and getattr(a.value.func, "id", "") == "mp_RLock":
                         for tg in a.targets:
@@ -79,7 +110,9 @@ def extract(src):
                         for tg in a.targets:
                             if isinstance(tg, ast.Attribute) and tg.attr == "_tty_lock":
                                 store_attr_old = True
-    out.update(swap_global=swap_global and out["start_global"], store_attr_new=store_attr_new, store_attr_old=store_attr_old)
+    if (swap_global or store_attr_new) and guard is None:
+        raise SkeletonError("the condition guarding the lock hand-over was not recognised")
+    out.update(swap_global=swap_global and out["start_global"], store_attr_new=store_attr_new, store_attr_old=store_attr_old, guard=guard or (False, "global", "thread_type"))
     # the start itself must come after the with block
     out["start_after_release"] = any(
         isinstance(n, ast.Return) and isinstance(n.value, ast.Call) and isinstance(n.value.func, ast.Attribute) and n.value.func.attr == "__wrapped__" for n in s.body
@@ -96,6 +129,36 @@ def extract(src):
     # are the wrappers installed on Process?
     out["installed"] = "Process.start = " in src and "Process.run = " in src
     return out
+
+
+ENTRY_POINTS = {
+    # the terminal-touching entry points the library documents as synchronized (decorated with lock_tty)
+    "utils": ["query_terminal", "read_tty", "write_tty"],
+    "urwid": ["draw_screen", "flush", "get_available_raw_input", "write"],
+}
+INLINE_LOCKED = ["get_fg_bg_colors", "get_terminal_name_version"]  # hold the lock with an inline `with` around several queries
+
+
+def extract_entry_points(utils_src, urwid_src):
+    """-> {name: True/False (decorated with lock_tty)}, {name: number of inline acquisitions}"""
+    out, inline = {}, {}
+    ut, ur = ast.parse(utils_src), ast.parse(urwid_src)
+
+    def decorated(fn):
+        return any((isinstance(d, ast.Name) and d.id == "lock_tty") or (isinstance(d, ast.Attribute) and d.attr == "lock_tty") for d in fn.decorator_list)
+
+    for name in ENTRY_POINTS["utils"]:
+        out[name] = decorated(_find_func(ut, name))
+    screen = next((n for n in ast.walk(ur) if isinstance(n, ast.ClassDef) and n.name == "UrwidImageScreen"), None)
+    if screen is None:
+        raise SkeletonError("class UrwidImageScreen not found")
+    for name in ENTRY_POINTS["urwid"]:
+        fn = next((n for n in screen.body if isinstance(n, ast.FunctionDef) and n.name == name), None)
+        out[name] = bool(fn is not None and decorated(fn))
+    for name in INLINE_LOCKED:
+        fns = [n for n in ast.walk(ut) if isinstance(n, ast.FunctionDef) and n.name == name]  # (typing overloads share the name)
+        inline[name] = max([len(_with_items_named(w, "_tty_lock")) for fn in fns for w in ast.walk(fn) if isinstance(w, ast.With)] or [0])
+    return out, inline
 
 
 # ----------------------------------------------------------------------------------------
@@ -148,8 +211,16 @@ SCENARIOS = {
 }
 
 
+def scenario_spec(scenario):
+    if scenario.startswith("entry:"):
+        x = scenario.split(":", 1)[1]
+        partner = "query_terminal" if x != "query_terminal" else "read_tty"
+        return {0: None}, [("T0", 0, [("entry", x)]), ("T1", 0, [("entry", partner)])]
+    return SCENARIOS[scenario]
+
+
 def build_programs(sk, scenario):
-    procs, agents = SCENARIOS[scenario]
+    procs, agents = scenario_spec(scenario)
     progs = {}
     for name, pid, spec in agents:
         ops = []
@@ -160,6 +231,9 @@ def build_programs(sk, scenario):
                 ops += call_ops(sk, True)
             elif s == "adopt":
                 ops.append(("adopt",))
+            elif s[0] == "entry":
+                # a documented entry point: synchronized iff the current source decorates it
+                ops += call_ops(sk) if sk["entry"].get(s[1]) else [("enter",), ("exit",)]
             else:
                 ops += start_ops(sk, s[1])
         progs[name] = (pid, ops)
@@ -280,7 +354,17 @@ def encode(solver, sk, scenario, start_method, K):
                 elif op[0] == "swap":
                     child = op[1]
                     newl = I(8 + child)
-                    isthr = is_thread_lock(s["g"][pid])
+                    # the hand-over condition as written in the source, evaluated on the model state
+                    neg, subject, typ = sk["guard"]
+                    g_thr = is_thread_lock(s["g"][pid])
+                    if subject == "global":
+                        isthr = g_thr if typ == "thread_type" else z3.BoolVal(True)
+                    else:
+                        at = s["attr"][child]
+                        same_kind = is_thread_lock(at) if typ == "thread_type" else (is_thread_lock(at) == g_thr)
+                        isthr = z3.And(at != NONE, same_kind)
+                    if neg:
+                        isthr = z3.Not(isthr)
                     if sk["swap_global"]:
                         put(("g", pid), z3.And(here, isthr), newl)
                     if sk["store_attr_new"]:
@@ -317,8 +401,8 @@ def encode(solver, sk, scenario, start_method, K):
 
     def inside(s, a):
         pid, ops = progs[a]
-        ent = [j for j, op in enumerate(ops) if op[0] == "acq_enter"]
-        ext = [j for j, op in enumerate(ops) if op[0] == "exit_rel"]
+        ent = [j for j, op in enumerate(ops) if op[0] in ("acq_enter", "enter")]
+        ext = [j for j, op in enumerate(ops) if op[0] in ("exit_rel", "exit")]
         return z3.Or(*[z3.And(z3.UGT(s["pc"][a], e), z3.ULE(s["pc"][a], x)) for e, x in zip(ent, ext)])
 
     bad_mutex = z3.Or(*[z3.And(inside(s, a), inside(s, b)) for s in states for i, a in enumerate(names) for b in names[i + 1:]])
@@ -483,12 +567,17 @@ class C14(Check):
                     continue
                 for prop in ("mutex", "deadlock"):
                     out.append({"part": "bmc", "scenario": sc, "start_method": sm, "prop": prop, "slack": self.bounds[tier]["slack"]})
+        # every documented entry point against a synchronized query (two threads)
+        for names in ENTRY_POINTS.values():
+            for x in names:
+                out.append({"part": "bmc", "scenario": "entry:" + x, "start_method": "fork", "prop": "mutex", "slack": 0})
         return out
 
     def setup(self, shape, concrete):
         repo = os.environ.get("TERM_IMAGE_REPO", "/repo")
         self.src = open(os.path.join(repo, "src", "term_image", "utils.py")).read()
         self.sk = extract(self.src)
+        self.sk["entry"], self.sk["inline"] = extract_entry_points(self.src, open(os.path.join(repo, "src", "term_image", "widget", "_urwid.py")).read())
 
     def body(self, eng, shape):
         sk = self.sk
@@ -496,7 +585,8 @@ class C14(Check):
             eng.reachable()
             eng.claim("skeleton: the wrapper acquires the global lock around the call", sk["wrapper_acquisitions"] >= 1)
             eng.claim("skeleton: the wrappers are installed on multiprocessing.Process", sk["installed"])
-            eng.observe("skeleton", sorted([k, int(v)] for k, v in sk.items()))
+            eng.claim("skeleton: functions querying the terminal several times hold the lock around all of it", all(n >= 1 for n in sk["inline"].values()))
+            eng.observe("skeleton", sorted([k, int(v)] for k, v in sk.items() if not isinstance(v, (dict, tuple))))
             return
         procs, progs = build_programs(sk, shape["scenario"])
         total = sum(len(ops) for _, ops in progs.values())
@@ -506,7 +596,7 @@ class C14(Check):
         import time
 
         solver = z3.SolverFor("QF_FD")  # finite-domain back end: bit-blasting + SAT (probed: far faster than QF_BV here)
-        solver.set("timeout", eng.claim_timeout_ms)
+        solver.set("timeout", min(eng.claim_timeout_ms, int(getattr(eng, "shape_budget_s", 10**6) * 450)))  # two queries per shape
         bad_mutex, bad_deadlock, info = encode(solver, sk, shape["scenario"], shape["start_method"], K)
         eng.mc_states.update((shape["scenario"], k) for k in range(K + 1))
         eng.mc_transitions.update((shape["scenario"], k, a, j) for k in range(K) for a in info["names"] for j in range(len(info["progs"][a][1])))
@@ -539,7 +629,7 @@ class C14(Check):
         import warnings
 
         repo = os.environ.get("TERM_IMAGE_REPO", "/repo")
-        procs, agents = SCENARIOS[shape["scenario"]]
+        procs, agents = scenario_spec(shape["scenario"])
         names = [a[0] for a in agents]
         spec_of = {a[0]: a for a in agents}
         schedule = [int(eng.concrete.get(f"sched_{k}", 0)) for k in range(K)]
@@ -613,6 +703,19 @@ class C14(Check):
         mods = {0: load_utils("p0")}
         threads = []
 
+        def is_synchronized(fname):
+            if fname in ENTRY_POINTS["utils"]:
+                f = getattr(mods[0], fname)
+            else:
+                from term_image.widget import _urwid as UW
+
+                f = getattr(UW.UrwidImageScreen, fname, None)
+            while f is not None:  # other decorators may sit on top of lock_tty's wrapper
+                if getattr(getattr(f, "__code__", None), "co_name", "") == "lock_tty_wrapper":
+                    return True
+                f = getattr(f, "__wrapped__", None)
+            return False
+
         class FakeProcess:
             """stands for a multiprocessing.Process object; storing the lock on it is the model's 'swap' step"""
 
@@ -631,7 +734,26 @@ class C14(Check):
             mod = mods[pid]
             try:
                 for s_ in spec:
-                    if s_ == "adopt":
+                    if isinstance(s_, tuple) and s_[0] == "entry":
+                        # what the real entry point does about the lock, read off the real (imported) object
+                        def probe_e():
+                            with ctl.cond:
+                                if ctl.inside - {name}:
+                                    ctl.violation = True
+                                ctl.inside.add(name)
+                            me.leaving_body = True
+
+                        probe_e.__module__ = "probe"
+                        if is_synchronized(s_[1]):
+                            mod.lock_tty(probe_e)()
+                        else:
+                            ctl.park(name)  # enter
+                            probe_e()
+                            me.leaving_body = False
+                            ctl.park(name)  # exit
+                            with ctl.cond:
+                                ctl.inside.discard(name)
+                    elif s_ == "adopt":
                         ctl.park(name)
                         mod._process_run_wrapper.__wrapped__ = lambda self_, *a, **k: None
                         mod._process_run_wrapper(fake[pid])
